@@ -57,6 +57,9 @@ type Obligation struct {
 	Output  string
 	Model   string
 	Expect  string // "unsat" (default) or "sat" for cover obligations
+	// Detached: asserted but not assumed afterwards (preconditions of interface contracts: the interface's ensures carry
+	// the preconditions of their own tags as antecedents, so nothing else depends on the obligation)
+	Detached bool
 }
 
 type GhostVar struct {
@@ -69,7 +72,7 @@ var ghostVars = []GhostVar{
 	{"alloc", SInt, "alloc"},
 	{"chanClosed", SInt, "chan"}, {"evOpen", SBool, "chan"}, {"evNext", SInt, "chan"}, {"evCur", SInt, "chan"}, {"evCount", SInt, "chan"},
 	{"msClosed", SInt, "chan"}, {"msSent", SInt, "chan"}, {"rxDone", SInt, "chan"},
-	{"opaRejected", SBool, "opa"}, {"opaEvaluated", SBool, "opa"},
+	{"opaRejected", SBool, "opa"}, {"opaEvaluated", SBool, "opa"}, {"ldRejected", SBool, "ld"},
 	{"exitCode", SInt, "exit"}, {"stdout", SString, "stdout"}, {"fsContent", SString, "fs"}, {"fsExists", SBool, "fs"}, {"fsWritable", SBool, "const"}, {"fOffset", SInt, "fs"}, {"fAppend", SBool, "fs"}, {"fWr", SBool, "fs"},
 }
 
@@ -275,7 +278,17 @@ func (ex *Exec) entryHeapFacts(name string, t Term) {
 	}
 }
 
+// yamlTreeFacts (A-YAML-TREE): the children listed in a yaml.v3 node are non-nil, allocated nodes
+func (ex *Exec) yamlTreeFacts(name string, t Term) {
+	if name != "H_yaml_Node" {
+		return
+	}
+	ex.facts = append(ex.facts, fmt.Sprintf("(forall ((r Int) (j Int)) (! (=> (and (<= 0 j) (< j (len_RH_yaml_Node (|S_yaml_Node.Content| (select %s r))))) (> (at_RH_yaml_Node (|S_yaml_Node.Content| (select %s r)) j) 0)) :pattern ((at_RH_yaml_Node (|S_yaml_Node.Content| (select %s r)) j))))", t.S, t.S, t.S))
+	ex.note("yaml.v3 node trees: every entry of a node's Content is a non-nil node (A-YAML-TREE)")
+}
+
 func (ex *Exec) initHeapFacts(name string, t Term) {
+	ex.yamlTreeFacts(name, t)
 	if strings.HasPrefix(name, "MD_") {
 		// the nil map has an empty domain
 		s := ex.U.heaps[name] // (Array Int (Array K Bool))
@@ -458,6 +471,11 @@ func (ex *Exec) coerce(x Term, from, to types.Type) Term {
 	}
 	if ts != x.Sort && ts.Name == x.Sort.Name {
 		return Term{x.S, ts}
+	}
+	if ts.Name == "Float" && x.Sort.Kind == KInt {
+		// an integer constant used as a float64: floats are opaque, the conversion is an uninterpreted function
+		f := ex.U.DeclareFun("floatOfInt", []*Sort{SInt}, ts)
+		return Term{app(f.Name, x), ts}
 	}
 	if ts.Kind == KStruct && x.Sort.Kind == KStruct && ts != x.Sort && len(ts.Fields) == len(x.Sort.Fields) {
 		// conversion between struct types with identical underlying types
